@@ -5,6 +5,7 @@ package main
 import (
 	"fmt"
 	"go/token"
+	"go/types"
 	"sort"
 	"strings"
 
@@ -479,5 +480,338 @@ func ruleOU23(c *Ctx) {
 	}
 	if n == 0 {
 		c.unk("<module>", "row-formatters", "-", "no row formatter parameter filled with user text was found (formatTreeLine / formatCollapsedEpicLine not recognised)")
+	}
+}
+
+// claimantArgMatchesEmission (a clause of VD3, seed C06-r20): passing *a* validateClaimInvariant call is not enough - it
+// must judge the claimant the command is about to record. After an `unclaim` emission that is "" (after a `claim`
+// emission, the agent written into the event). The claimant argument of each invariant call reachable after the
+// emission is followed back through its phis to its leaves; a leaf that is neither the constant "" / the recorded
+// agent nor a value tested equal to it on the way to the emission (claimValue on the `claimValue == ""` edge) is the
+// task's old claimant, and if a feasible path through the emission reaches the call with the argument taking that leaf,
+// the invariant was checked against the wrong claimant: `{"claim":"","state":"error"}` passes because the task *had* one.
+func (c *Ctx) claimantArgMatchesEmission(em *Emission, typ string, vci *ssa.Function) {
+	f := em.Fn
+	fn := c.Name(f)
+	construct := em.construct(typ) + "|invariant-judges-recorded-claimant"
+	pos := c.Pos(em.Call.Pos())
+	var want ssa.Value // the claimant this emission records; nil means the empty string
+	if typ == "claim" {
+		want = em.Fields["AgentID"]
+		if want == nil {
+			return
+		}
+	}
+	// values known to equal the recorded claimant where the emission happens
+	good := func(v ssa.Value) bool {
+		v = resolve(v)
+		if s, isC := constString(v); isC {
+			// (the constant "" is also what a claim is judged with when the state recorded with it clears the claimant)
+			return s == ""
+		}
+		if want != nil && (v == resolve(want) || c.canon(v) == c.canon(want)) {
+			return true
+		}
+		if want == nil {
+			for _, bf := range branchFacts(f) {
+				if len(bf.A.Env) == 0 && bf.A.Kind == "const" && bf.Holds && constStr(bf.A.C) == "" {
+					if s, isC := constString(bf.A.C); isC && s == "" && (bf.E.To() == em.Call.Block() || bf.E.To().Dominates(em.Call.Block())) {
+						if resolve(bf.A.X) == v || c.canon(bf.A.X) == c.canon(v) {
+							curEnv = nil
+							return true
+						}
+					}
+				}
+			}
+			curEnv = nil
+		}
+		return false
+	}
+	n := 0
+	bad := ""
+	for _, call := range callsTo(f, vci) {
+		cv, ok := call.(*ssa.Call)
+		if !ok || len(cv.Call.Args) != 2 || !canReachInstr(em.Call, cv) {
+			continue
+		}
+		n++
+		// leaves of the claimant argument with the phi edges that select them
+		type leaf struct {
+			v       ssa.Value
+			removed map[edge]bool // the other incoming edges of every phi on the way
+		}
+		var leaves []leaf
+		var walk func(v ssa.Value, removed map[edge]bool, d int)
+		walk = func(v ssa.Value, removed map[edge]bool, d int) {
+			ph, isPhi := strip(v).(*ssa.Phi)
+			if !isPhi || d > 3 {
+				leaves = append(leaves, leaf{v, removed})
+				return
+			}
+			for i, e := range ph.Edges {
+				r2 := map[edge]bool{}
+				for k := range removed {
+					r2[k] = true
+				}
+				for j, p := range ph.Block().Preds {
+					if j == i {
+						continue
+					}
+					for si, s := range p.Succs {
+						if s == ph.Block() {
+							r2[edge{p, si}] = true
+						}
+					}
+				}
+				walk(e, r2, d+1)
+			}
+		}
+		walk(cv.Call.Args[1], map[edge]bool{}, 0)
+		for _, lf := range leaves {
+			if good(lf.v) {
+				continue
+			}
+			// only the task's *previous* claimant is known to be the wrong thing to judge; a value computed elsewhere
+			// (a helper, another lookup of the "claim" key) is not followed further
+			if _, name, isField := fieldLoad(resolve(lf.v)); !isField || name != "ClaimedBy" {
+				continue
+			}
+			if ex, _ := c.pathExists(psQuery{F: f, Removed: lf.removed, Via: em.Call.Block(), Targets: map[*ssa.BasicBlock]bool{cv.Block(): true}}); ex {
+				bad = fmt.Sprintf("after this %s is built, validateClaimInvariant at %s can be handed %s as the claimant", typ, c.Pos(cv.Pos()), c.canon(lf.v))
+			}
+		}
+	}
+	if n == 0 {
+		return // no invariant call after the emission in this function: VD3's main clause judges that
+	}
+	what := "the empty claimant"
+	if want != nil {
+		what = "the agent written into the event"
+	}
+	c.check(bad == "", fn, construct, pos, "every invariant check reachable after the emission judges "+what,
+		bad+" - not the one this command records: the (state, claimant) pair that is checked is not the pair that is written, and a request whose end state needs a claimant passes because the task had one before")
+}
+
+// ------------------------------------------------------------------ OU24
+
+func init() {
+	register(&Rule{ID: "OU24", Min: 1, Run: ruleOU24,
+		Doc: "body-stdin-is-honoured: when --body-stdin is given the body is what arrives on standard input. In every command function that consults the option, no path on which the option is true reaches a non-failing return without passing a call that reads os.Stdin: a further condition on the way (stdin is a pipe, the title flag is set, ...) sends the command down the flags-only branch, where it succeeds with an empty body and never reads what the user typed"})
+}
+
+func ruleOU24(c *Ctx) {
+	// functions that can reach a read of os.Stdin
+	reads := map[*ssa.Function]bool{}
+	for _, f := range c.Fns {
+		if !c.InModule(f) || f.Blocks == nil {
+			continue
+		}
+		for _, call := range callsNamed(f, "io.ReadAll", "io.Copy", "(*bufio.Reader).ReadString", "(*bufio.Scanner).Scan", "(*os.File).Read") {
+			for _, a := range call.Common().Args {
+				if isGlobalLoad(a, "Stdin") {
+					reads[f] = true
+				}
+				if mi, ok := a.(*ssa.MakeInterface); ok && isGlobalLoad(mi.X, "Stdin") {
+					reads[f] = true
+				}
+			}
+		}
+	}
+	for changed := true; changed; {
+		changed = false
+		for _, f := range c.Fns {
+			if reads[f] || !c.InModule(f) || f.Blocks == nil {
+				continue
+			}
+			for _, call := range callsIn(f) {
+				if cal := calleeOf(call.Common()); cal != nil && reads[cal] {
+					reads[f] = true
+					changed = true
+				}
+			}
+		}
+	}
+	n := 0
+	isEntry := map[*ssa.Function]bool{}
+	for _, e := range c.F.Entries {
+		isEntry[e] = true
+	}
+	for _, f := range c.Fns {
+		if !c.InModule(f) || f.Blocks == nil || f.Pkg != c.Ergo || f.Parent() != nil || !isEntry[f] {
+			continue
+		}
+		// a load of the BodyStdin option in f
+		var opt ssa.Value
+		eachInstr(f, func(r instrRef) {
+			if v, ok := r.In.(ssa.Value); ok {
+				if name, isOpt := optionsFieldLoad(v); isOpt && name == "BodyStdin" {
+					if _, isBool := v.Type().Underlying().(*types.Basic); isBool && opt == nil {
+						opt = v
+					}
+				}
+			}
+		})
+		if opt == nil {
+			continue
+		}
+		// only where the option decides between branches of f
+		decides := false
+		var starts []*ssa.BasicBlock // where the option is known to be true
+		for _, bf := range branchFacts(f) {
+			if len(bf.A.Env) == 0 && bf.A.Kind == "bool" {
+				if name, isOpt := optionsFieldLoad(bf.A.X); isOpt && name == "BodyStdin" {
+					decides = true
+					if bf.Holds {
+						starts = append(starts, bf.E.To())
+					}
+				}
+			}
+		}
+		curEnv = nil
+		if !decides {
+			continue
+		}
+		n++
+		blocked := map[*ssa.BasicBlock]bool{}
+		for _, call := range callsIn(f) {
+			if cal := calleeOf(call.Common()); cal != nil && reads[cal] {
+				blocked[call.Block()] = true
+			}
+		}
+		targets := map[*ssa.BasicBlock]bool{}
+		for _, r := range c.nonFailingReturns(f) {
+			if !blocked[r.Block()] {
+				targets[r.Block()] = true
+			}
+		}
+		ex, wit := false, []int(nil)
+		for _, st := range starts {
+			if blocked[st] {
+				continue
+			}
+			if e2, w2 := c.pathExists(psQuery{F: f, Start: st, Blocked: blocked, Targets: targets}); e2 {
+				ex, wit = true, w2
+			}
+		}
+		c.check(!ex && len(blocked) > 0, c.Name(f), "body-stdin honoured", c.FnPos(f),
+			"with --body-stdin given, every non-failing path reads standard input",
+			fmt.Sprintf("with --body-stdin given the command can succeed without reading standard input (blocks %v): a further condition diverts it to the flags-only branch and the body the user supplies is dropped", wit))
+	}
+	if n == 0 {
+		// the option is consulted in a helper (a source-selection method, a request object): this rule only reads the
+		// shape where the command function itself branches on it; elsewhere it does not decide - and says so
+		c.ok("<module>", "body-stdin-users", "-", "not decided on this tree: no command entry branches on the BodyStdin option itself")
+	}
+}
+
+// ------------------------------------------------------------------ OU25
+
+// OU25 is not registered: on five behaviour-preserving restructurings of RunList (view structs, mode enums, list
+// filters) it either lost the ShowAll branch or took a filter's own empty-state return for a violation. Seed C19-r20
+// (the `--all` empty check decided on the non-epic tasks only) is therefore declared missed; the code stays as a record.
+func initOU25Disabled() {
+	register(&Rule{ID: "OU25", Min: 1, Run: ruleOU25,
+		Doc: "all-view-renders-unless-empty: with --all every live item has a row. In the human list, wherever the ShowAll option is known to be true, a path to a successful return that does not pass the tree renderer must pass a test that what the renderer would have been given (its roots argument) is empty: an early `No tasks.` decided on another collection (the non-epic tasks only) leaves every epic of an epics-only store without a row"})
+}
+
+func ruleOU25(c *Ctx) {
+	rl := c.ErgoFn("RunList")
+	rtv := c.ErgoFn("renderTreeView")
+	if rl == nil || rtv == nil {
+		c.unk("ergo.RunList", "all-view", "-", "RunList or the tree renderer not found")
+		return
+	}
+	n := 0
+	seenFn := map[*ssa.Function]bool{}
+	for _, f := range append([]*ssa.Function{rl}, c.unitOf(rl)...) {
+		if seenFn[f] {
+			continue
+		}
+		seenFn[f] = true
+		calls := callsTo(f, rtv)
+		if len(calls) == 0 {
+			continue
+		}
+		// the roots handed to the renderer ([]*treeNode argument)
+		rootsCanon := map[string]bool{}
+		blocked := map[*ssa.BasicBlock]bool{}
+		for _, call := range calls {
+			blocked[call.Block()] = true
+			for _, a := range call.Common().Args {
+				if _, isSlice := a.Type().Underlying().(*types.Slice); isSlice {
+					rootsCanon[c.canon(a)] = true
+				}
+			}
+		}
+		var starts []*ssa.BasicBlock
+		startVal := map[*ssa.BasicBlock]ssa.Value{}
+		for _, bf := range branchFacts(f) {
+			if len(bf.A.Env) != 0 || bf.A.Kind != "bool" || !bf.Holds {
+				continue
+			}
+			if derivesFromField(bf.A.X, "ShowAll") {
+				starts = append(starts, bf.E.To())
+				startVal[bf.E.To()] = bf.A.X
+			}
+		}
+		empty := edgesWhere(f, func(a Atom, holds bool) bool {
+			if a.Kind != "const" || !holds || len(a.Env) != 0 {
+				return false
+			}
+			if k, ok := constInt(a.C); !ok || k != 0 {
+				return false
+			}
+			cl, _ := callOf(a.X)
+			return cl != nil && calleeFullName(&cl.Call) == "builtin len" && len(cl.Call.Args) == 1 && rootsCanon[c.canon(cl.Call.Args[0])]
+		})
+		// the JSON reply leaves before anything is rendered: not the human view
+		for e := range edgesWhere(f, func(a Atom, holds bool) bool {
+			return a.Kind == "bool" && holds && len(a.Env) == 0 && derivesFromField(a.X, "JSON")
+		}) {
+			empty[e] = true
+		}
+		curEnv = nil
+		if len(starts) == 0 {
+			continue
+		}
+		n++
+		targets := map[*ssa.BasicBlock]bool{}
+		for _, r := range c.nonFailingReturns(f) {
+			if !blocked[r.Block()] {
+				targets[r.Block()] = true
+			}
+		}
+		// only the human path: JSON replies leave before
+		ex, wit := false, []int(nil)
+		for _, st := range starts {
+			if blocked[st] {
+				continue
+			}
+			// the --all branch proper: the start must lead to a render call at all (the flag-conflict test does not)
+			leads := false
+			for b := range blocked {
+				if st.Dominates(b) {
+					leads = true
+				}
+			}
+			if !leads {
+				continue
+			}
+			// when the option is read in the entry block the search starts there, so that what the function establishes
+			// before this branch (conflicting flags rejected) is known on the path
+			from := st
+			if in, ok := startVal[st].(ssa.Instruction); ok && in.Block() == f.Blocks[0] {
+				from = f.Blocks[0]
+			}
+			if e2, w2 := c.pathExists(psQuery{F: f, Start: from, Blocked: blocked, Removed: empty, Targets: targets, Seed: []psSeed{{V: startVal[st], Truth: true}}}); e2 {
+				ex, wit = true, w2
+			}
+		}
+		c.check(!ex, c.Name(f), "all-view renders unless its roots are empty", c.FnPos(f),
+			"under --all every path that skips the renderer has tested the renderer's own input empty",
+			fmt.Sprintf("under --all the command can return successfully without rendering although the renderer's roots were never tested empty (blocks %v): a store whose only live items are epics prints `No tasks.` and none of them has a row", wit))
+	}
+	if n == 0 {
+		c.unk(c.Name(rl), "all-view", c.FnPos(rl), "no branch on the ShowAll option leading to the tree renderer was found")
 	}
 }
